@@ -10,6 +10,7 @@ CONSTANTS
   MODFIX = TRUE
   COLFIX = TRUE
   WVFIX = TRUE
+  NTRYFIX = TRUE
   MAXIT = 10
 INVARIANT SameLattice
 INVARIANT RightHanded
